@@ -1,9 +1,11 @@
 package broker
 
 import (
+	"context"
 	"fmt"
 	"runtime"
 	"sync"
+	"sync/atomic"
 	"testing"
 	"time"
 
@@ -73,6 +75,9 @@ func TestC01(t *testing.T) {
 			break
 		}
 		cr := r.Fork()
+		if c%50 == 25 {
+			c01Storm(run, cr.Fork())
+		}
 		w := NewWorld(cr.Fork())
 		a := cfgAlphabet(cr)
 		style := randStyle(cr)
@@ -166,6 +171,103 @@ func TestC01(t *testing.T) {
 	_ = runtime.NumGoroutine
 }
 
+// stormNode counts invocations and the events that do not carry the type its pipeline was registered for.
+type stormNode struct {
+	typ       eventlogger.NodeType
+	et        eventlogger.EventType
+	n, wrong  int64
+	nilEvents int64
+}
+
+func (s *stormNode) Process(_ context.Context, e *eventlogger.Event) (*eventlogger.Event, error) {
+	atomic.AddInt64(&s.n, 1)
+	switch {
+	case e == nil:
+		atomic.AddInt64(&s.nilEvents, 1)
+	case e.Type != s.et:
+		atomic.AddInt64(&s.wrong, 1)
+	}
+	if s.typ == eventlogger.NodeTypeSink {
+		return nil, nil
+	}
+	return e, nil
+}
+func (s *stormNode) Reopen() error              { return nil }
+func (s *stormNode) Type() eventlogger.NodeType { return s.typ }
+
+// c01Storm: Sends of several event types at the same time on one Broker, nothing else going on. Judged by
+// conservation after the senders have finished: every node of every pipeline of a type was invoked once per Send
+// of that type, and never with an event of another type.
+func c01Storm(run *rt.Run, r *rt.Rand) {
+	ctx := context.Background()
+	b, err := eventlogger.NewBroker()
+	if err != nil {
+		run.Inconclusive(err.Error())
+		return
+	}
+	ntypes, per, nsend := r.Range(2, 4), r.Range(1, 3), r.Range(300, 1500)
+	type pl struct{ f, m, k *stormNode }
+	pipes := map[string][]pl{}
+	sends := map[string]*int64{}
+	for t := 0; t < ntypes; t++ {
+		et := eventlogger.EventType(fmt.Sprintf("st%d", t))
+		sends[string(et)] = new(int64)
+		for p := 0; p < r.Range(1, 3); p++ {
+			x := pl{&stormNode{typ: eventlogger.NodeTypeFilter, et: et}, &stormNode{typ: eventlogger.NodeTypeFormatter, et: et}, &stormNode{typ: eventlogger.NodeTypeSink, et: et}}
+			ids := []eventlogger.NodeID{}
+			for i, n := range []*stormNode{x.f, x.m, x.k} {
+				id := eventlogger.NodeID(fmt.Sprintf("sn-%d-%d-%d", t, p, i))
+				b.RegisterNode(id, n)
+				ids = append(ids, id)
+			}
+			if err := b.RegisterPipeline(eventlogger.Pipeline{EventType: et, PipelineID: eventlogger.PipelineID(fmt.Sprintf("sp%d", p)), NodeIDs: ids}); err != nil {
+				run.Inconclusive("storm: " + err.Error())
+				return
+			}
+			pipes[string(et)] = append(pipes[string(et)], x)
+		}
+	}
+	var wg sync.WaitGroup
+	var sendErrs int64
+	for t := 0; t < ntypes; t++ {
+		et := eventlogger.EventType(fmt.Sprintf("st%d", t))
+		for g := 0; g < per; g++ {
+			wg.Add(1)
+			go func() {
+				defer wg.Done()
+				for i := 0; i < nsend; i++ {
+					if _, err := b.Send(ctx, et, i); err != nil {
+						atomic.AddInt64(&sendErrs, 1)
+					}
+					atomic.AddInt64(sends[string(et)], 1)
+				}
+			}()
+		}
+	}
+	wg.Wait()
+	desc := fmt.Sprintf("storm: %d event types, %d senders per type, %d Sends each, nothing else running", ntypes, per, nsend)
+	run.Add("storm_sends", ntypes*per*nsend)
+	run.Eval(fmt.Sprintf("storm|%d|%d|%d", ntypes, per, nsend))
+	for et, ps := range pipes {
+		want := atomic.LoadInt64(sends[et])
+		for pi, x := range ps {
+			for _, n := range []*stormNode{x.f, x.m, x.k} {
+				if n.wrong != 0 || n.nilEvents != 0 {
+					run.Violation("history-pattern:storm:foreign-event", fmt.Sprintf("a node of pipeline %d of type %s was invoked %d times with an event of another type (%d times with nil)", pi, et, n.wrong, n.nilEvents), desc)
+					return
+				}
+				if n.n != want {
+					run.Violation("history-pattern:storm:traversal-count", fmt.Sprintf("%d Sends of type %s returned, yet a node of its pipeline %d was invoked %d times", want, et, pi, n.n), desc)
+					return
+				}
+			}
+		}
+	}
+	if sendErrs != 0 {
+		run.Violation("history-pattern:storm:send-error", fmt.Sprintf("%d Sends failed although every pipeline completes and no threshold is set", sendErrs), desc)
+	}
+}
+
 func describeShape(exp []Traversal) string {
 	s := ""
 	for _, tr := range exp {
@@ -225,14 +327,23 @@ func checkC01(run *rt.Run, w *World, o *SendObs, ops []Op, stop bool, stopAt tim
 	{
 		// the first node of every traversal is promised an empty (non-nil) format table. Which invocations
 		// are "first" is read off the event pointers, not off the decomposition (ambiguous for cancelled
-		// Sends): the earliest invocation that receives a given event object is the first node to see it.
-		first := map[*eventlogger.Event]*Entry{}
+		// Sends): an invocation is a first one when no earlier invocation of this Send handed on (returned,
+		// without an error) the event object it receives. (Not "the earliest invocation per event object":
+		// that presumes what is to be checked, that no two pipelines are given the same object.)
+		var first []*Entry
 		for _, e := range o.Entries {
 			if e.Prov != o.SendID || e.Ev == nil {
 				continue
 			}
-			if f, seen := first[e.Ev]; !seen || e.Call < f.Call {
-				first[e.Ev] = e
+			handedOn := false
+			for _, x := range o.Entries {
+				if x != e && x.RetEv == e.Ev && x.RetErr == nil && x.Ret != 0 && x.Ret <= e.Call {
+					handedOn = true
+					break
+				}
+			}
+			if !handedOn {
+				first = append(first, e)
 			}
 		}
 		for _, e := range first {
